@@ -292,6 +292,16 @@ func (s *Sim) onApproval(m *Model, t *TxTrace, approver common.Address) {
 	case !expect && fired:
 		r.Fail("C32", "effect-below-threshold", "%v took effect with %d distinct current validators of %d (need %d)", st, count, len(cons), need)
 	}
+	if fired && !expect && (st.Op == "approvechain" || st.Op == "approveupd" || st.Op == "approvequit") {
+		r.Fail("C35", "registry-changed-below-approval-quorum", "%v changed the registry with %d distinct current validators of %d approving this action (need %d)", st, count, len(cons), need)
+	}
+	if expect && t.OK && st.Op != "blacknode" && st.Op != "whitenode" {
+		// the approval that reaches the quorum consumes the request, whatever the action then has to do
+		post := View{t.Post.L, t.Post.WS}
+		if s.pending(&TxTrace{P: t.P, Pre: post}) {
+			r.Fail("C33", "request-not-consumed:"+st.Op, "%v reached the approval quorum (%d of %d, need %d) but its request is still pending afterwards", st, count, len(cons), need)
+		}
+	}
 	if count == need && fired {
 		r.Probe("approval_fired_exactly_at_threshold")
 	}
